@@ -65,6 +65,15 @@ func runC08(p *core.Program, r *core.Report) {
 		runC07(p, r)
 		checkAlphabetBuilder(p, r)
 	})
+	// a library-made separator function reports 0 instead of its recipe's entropy on the call in which its generation
+	// gives up; how rare that is (and so "identical on every call") is set by the shipped thresholds (= C16 R16.4)
+	borrowSelected(p, r, runC16, "R8.3", func(o core.Obligation) bool { return o.Rule == "R16.4" })
+	// the separator term is taken iff SeparatorFunc != nil: Generate must use the function under exactly that condition (= C04 R4.3 re-run)
+	if g, why := resolveWLGen(p); g == nil {
+		r.Unrecognised("R8.3", "(spg.WLRecipe).Generate", "generation shape", "", why)
+	} else {
+		r.Borrow("R8.3", func() { checkSeparatorPerGap(p, r, g, "R4.3") })
+	}
 
 	// R8.4
 	eff := core.GetEff(p)
@@ -477,7 +486,7 @@ func checkWLEntropyLedger(p *core.Program, r *core.Report, rule string) {
 		}
 	}
 	// R8.3b helpers
-	if es := p.Func("entropySimple"); es != nil {
+	if es := entropySimpleFunc(p); es != nil {
 		ok, why := isLenTimesLog2(es)
 		r.Check(ok, rule+"b", core.FuncName(es), "entropySimple(l,n) = float(l)*log2(float(n))", p.Pos(es.Pos()), why)
 	} else {
@@ -523,7 +532,7 @@ func isEntropySimpleCall(p *core.Program, v ssa.Value) bool {
 		return false
 	}
 	f := core.StaticCallee(c)
-	return f != nil && f == p.Func("entropySimple") && len(c.Call.Args) == 2
+	return f != nil && f == entropySimpleFunc(p) && len(c.Call.Args) == 2
 }
 
 // isSizeOfRecipe: int(Size(recipe copy)).
